@@ -2,7 +2,8 @@ SPECIFICATION FairSpec
 CONSTANTS
   Script <- ScriptQ
   Thresh = 1
+  SatInit = FALSE
   MaxLow = 1
-INVARIANTS ExecAtMostOnce ExecOnlyAccepted NoLostWakeup HighPrioFIFO EdgeImpliesFlag CountersLag FlagMeansWake ClearMeansSeen
+INVARIANTS ExecAtMostOnce ExecOnlyAccepted NoLostWakeup HighPrioFIFO EdgeImpliesFlag CountersLag ShutdownIsFinal FlagMeansWake ClearMeansSeen
 PROPERTIES EventuallyAllRun
 CHECK_DEADLOCK FALSE
